@@ -20,7 +20,9 @@ PROP = {
             "store operation, crash after the n-th delivered frame, store failure at the n-th store operation, for "
             "every n of the run; every case restarts a fresh agent on the same store and syncs every lane. Every fourth "
             "history uses the late rig (value / map lanes, persistent and transient, registered by addlane steps while "
-            "the agent runs; re-registered after the restart at run time or during initialisation). "
+            "the agent runs; re-registered after the restart at run time or during initialisation). One value in five "
+            "(lane values, map values, store values; also as the last state before the stop / cut) is Option::None, "
+            "whose encoding is the EMPTY byte string. "
             "distinct = distinct script+end mode (sha1 of the op lines), non-trivial = at least 30 log lines",
     "level_text": "Proof: for every store naming and every sequence of write-task events in which lanes and stores "
                   "are REGISTERED by events of the history - in the prologue of write_task (initialisation phase) or "
@@ -36,7 +38,9 @@ PROP = {
                   "operations, independent of other items; transient items never reach the store and restart at "
                   "their default; hence at every cut the restored state is the published state or a later one; a lane "
                   "registered at run time gets the same store id as one registered during initialisation, keeps it, "
-                  "and is persisted-before-published and never-older across re-registration in the next incarnation. "
+                  "and is persisted-before-published and never-older across re-registration in the next incarnation; "
+                  "a value with an empty encoding is an ordinary value (put with an empty payload, restored by an init "
+                  "command with an empty body; update with an empty value is not a remove). "
                   "Tied to the code end to end: a real agent (value/map lanes, value/map stores, transient lane and "
                   "store) on the real runtime (AgentRouteTask::run_agent_with_store) with a recording "
                   "NodePersistence sharing one sequence counter with the remote-side frame log, run to clean stop, "
@@ -53,7 +57,7 @@ PROP = {
                   "are not modelled (never produced by the runtime's initializers).",
     "trusted_base": COMMON_TRUST + [
         "modelled, not verified: tokio (single-threaded, paused clock), byte channels and Framed codecs, the agent's "
-        "lane implementations and Recon (de)serialisation of i32 keys/values (store bytes are treated as opaque, "
+        "lane implementations and Recon (de)serialisation of i32 keys / Option<i32> values (store bytes are treated as opaque, "
         "injectively printed keys), HashMap/BTreeMap (finite maps)",
         "the recording NodePersistence of the harness (an in-memory map; its reads are cross-checked by the model)",
         "late rig: the harness's own lane implementations (value: last command; map: update/remove/clear) stand in for "
